@@ -365,7 +365,7 @@ func loadReplay() *Replay {
 // stallLimit: single runs take milliseconds. A run that keeps the processor that long without reaching a scheduling
 // point (an endless loop in the code under test that touches nothing the simulator owns) cannot be ended from inside
 // its bubble; the guard, an ordinary goroutine outside of it, ends the process instead and says why.
-const stallLimit = 30 * time.Second
+const stallLimit = 60 * time.Second
 
 type stallGuard struct {
 	mu      sync.Mutex
